@@ -57,6 +57,16 @@ def free_text():
                               st.just(u"\x0c"), st.just(u" ")), min_size=1, max_size=5).map(u" ".join)
 
 
+def long_text():
+    """Some kilobytes of output (a stack dump, a generated document) full of CDATA terminators, at every alignment."""
+    return st.builds(lambda pad, pat, k: u"." * pad + pat * k, st.integers(0, 4),
+                     st.sampled_from([u"]]>", u"x]]>", u"ab]]>", u"]]>\n", u"\x1b[0m]]>"]), st.sampled_from([300, 420, 700, 1400]))
+
+
+def emitted_text():
+    return st.one_of(free_text(), free_text(), free_text(), free_text(), free_text(), free_text(), long_text())
+
+
 def valid_xml_text(text):
     for ch in text:
         o = ord(ch)
@@ -235,6 +245,10 @@ def check(case):
         hostile = case.get("hostile")
         if hostile:
             res.label("hostile")
+            from ..harness import _all_step_lists
+            if any(len(v) > 1024 for f in case["program"]["features"] for lst in _all_step_lists(f) for st_ in lst
+                   for v in (st_.get("emit") or {}).values() if isinstance(v, str)):
+                res.label("hostile:output>1KiB")
         if hostile_seen:
             res.label("hostile-scenario-name")
         for k, v in (case.get("userdata") or {}).items():
@@ -283,11 +297,11 @@ def case_st(draw):
                         if o in ("pass", "fail", "raise") and draw(st.booleans()):
                             s["emit"] = {}
                             if draw(st.booleans()):
-                                s["emit"]["stdout"] = draw(free_text())
+                                s["emit"]["stdout"] = draw(emitted_text())
                             if draw(st.booleans()):
-                                s["emit"]["stderr"] = draw(free_text())
+                                s["emit"]["stderr"] = draw(emitted_text())
                             if o != "pass":
-                                s["emit"]["msg"] = draw(free_text())
+                                s["emit"]["msg"] = draw(emitted_text())
     userdata = {}
     for name in ("show_hostname", "show_multiline", "show_scenarios", "show_tags", "show_timings", "show_timestamp",
                  "show_skipped_always"):
@@ -322,7 +336,7 @@ def explore(rec):
 
 
 def required_labels(tier):
-    return ["hostile", "hostile-scenario-name", "failing-scenario", "no-skipped", "hook-fault", "raising-cleanup",
+    return ["hostile", "hostile:output>1KiB", "hostile-scenario-name", "failing-scenario", "no-skipped", "hook-fault", "raising-cleanup",
             "userdata:show_skipped_always", "userdata:show_scenarios", "reports:2", "layout:sub-directory",
             "layout:equally-named-files", "layout:files-as-arguments", "cli:LC_ALL=C", "cli:non-ascii-names"]
 
